@@ -127,6 +127,7 @@ type Del struct {
 	LeaseWhy       string
 	DoneAt         Iv
 	countedExpired bool
+	pruneChecked   bool
 	SeenAt         int // operation index at which the model last confirmed this record
 }
 
